@@ -28,7 +28,7 @@ pub fn draw_format(rng: &mut Rng) -> String {
     if k < 55 {
         return s;
     }
-    if k < 75 {
+    if k < 68 {
         // valid parameters (possibly duplicated) for the formats that take some
         let name = *rng.pick(&["annotated", "tcgame", "intelhex"]);
         s = name.to_string();
@@ -36,6 +36,20 @@ pub fn draw_format(rng: &mut Rng) -> String {
         for _ in 0..rng.range(1, 3) {
             s.push(',');
             s.push_str(*rng.pick(ps));
+        }
+        return s;
+    }
+    if k < 78 {
+        // every parameter name any format knows, on any format, with values
+        // drawn from one shared pool (valid for one format, not for another)
+        if rng.chance(7, 10) {
+            s = rng.pick(&["annotated", "tcgame", "intelhex"]).to_string();
+        }
+        for _ in 0..rng.range(1, 2) {
+            s.push(',');
+            s.push_str(*rng.pick(&["base", "group", "addr_unit"]));
+            s.push(':');
+            s.push_str(*rng.pick(&["0", "1", "2", "3", "4", "7", "8", "10", "16", "32", "64", "128", "256", "-1", "x", "", "2.5", "0x10", " 8", "+8"]));
         }
         return s;
     }
